@@ -135,6 +135,14 @@ type ReplayFunc func(c *Ctx, input json.RawMessage)
 //
 //	bin quick|thorough
 //	bin --replay <file>
+//
+// PostRun, when set (by package duoc), runs after the check's own exploration and before the verdict;
+// ReplayHook gets a replay input first and says whether it was its own.
+var (
+	PostRun    func(c *Ctx)
+	ReplayHook func(c *Ctx, in json.RawMessage) bool
+)
+
 func Main(id, level string, run func(c *Ctx), replay ReplayFunc) {
 	debug.SetGCPercent(200)
 	c := &Ctx{ID: id, Level: level, start: time.Now(),
@@ -156,7 +164,9 @@ func Main(id, level string, run func(c *Ctx), replay ReplayFunc) {
 		}
 		c.Tier = "replay"
 		fmt.Printf("replaying %s class=%s\nrecorded: %s\n", args[1], v.Class, v.Message)
-		replay(c, v.Input)
+		if ReplayHook == nil || !ReplayHook(c, v.Input) {
+			replay(c, v.Input)
+		}
 		if len(c.viol) == 0 {
 			fmt.Println("replay: case passes on this tree")
 			os.Exit(0)
@@ -191,6 +201,9 @@ func Main(id, level string, run func(c *Ctx), replay ReplayFunc) {
 		}()
 	}
 	run(c)
+	if PostRun != nil {
+		PostRun(c)
+	}
 	os.Exit(c.Finish())
 }
 
